@@ -406,4 +406,95 @@ def c02(tier, seed):
     return out
 
 
-CASES = {'C10': c10, 'C11': c11, 'C12': c12, 'C13': c13, 'C17': c17, 'C19': c19, 'C03': c03, 'C04': c04, 'C09': c09, 'C15': c15, 'C02': c02}
+# ------------------------------------------------------------------ C01: quoted / escaped arguments (see probes.probe_c01 for the alphabet)
+def c01(tier, seed):
+    alpha = ['&', '<', '<<<', '|', ';', '>', '>>', '2>&1', '#', '*', '~', '{a,b}', '$HOME', 'a b', '']
+    cases = []
+    for a in alpha:
+        for q in ("'", '"'):
+            if q == '"' and '$' in a:
+                continue
+            cases.append([(q, a)])
+            cases.append([("'", 'x'), (q, a)])
+            cases.append([(q, a), ("'", 'y')])
+            cases.append([(q, a), ('|', '')])
+    for a in alpha + ['a>', '>a', 'a<b', 'a|', '&a', 'a&', 'a$HOME', '~/x', 'a*', '`echo`', '{1..3}', '$$', '$(echo)', '||', '&&', 'a;b', '#a', '(', ')', '!', '=', '%', '^', '?', '[a]', ',', 'é*']:
+        if a == '':
+            continue
+        cases.append([('\\', a)])
+        cases.append([('', 'x'), ('\\', a)])
+        cases.append([('\\', a), ('', 'y')])
+        cases.append([('\\', a), ('\\', a)])
+        cases.append([('\\', a), ('|', '')])
+
+    def wr(q, a):
+        if q == '\\':
+            return ''.join(ch if (ch.isalnum() or ord(ch) > 127) else '\\' + ch for ch in a)
+        return q + a + q
+    out = []
+    for args in cases:
+        piped = args[-1][0] == '|'
+        if piped:
+            args = args[:-1]
+        line = './pargs ' + ' '.join(wr(q, a) for q, a in args) + ('|cat' if piped else '')
+        style = {"'": 'single-quoted', '"': 'double-quoted', '\\': 'escaped', '': 'plain'}[args[-1][0]]
+        out.append({'line': line, 'files': {'pargs': PARGS, 'afile': '', 'bfile': ''}, 'expect_stdout': _argv([a for q, a in args]),
+                    'expect_only_files': ['pargs', 'afile', 'bfile'], 'area': 'argv:' + style + (':before-pipe' if piped else ''), 'timeout': 5})
+    for line, exp in (("./pargs 'a' \"b c\" d\\ e", ['a', 'b c', 'd e']), ("./pargs 'x;y' && ./pargs \"p||q\"", ['x;y', 'p||q']),
+                      ("./pargs '#not a comment' # a comment", ['#not a comment']), ("./pargs 'a' ; ./pargs \"b\" & wait", None)):
+        if exp is not None:
+            out.append({'line': line, 'files': {'pargs': PARGS}, 'expect_stdout': _argv(exp), 'area': 'argv:mixed', 'timeout': 5})
+    return out
+
+
+# ------------------------------------------------------------------ C05: no line crashes or hangs the shell
+def c05(tier, seed):
+    alpha = ['>', '<', '|', '&', ';', "'", '"', '$', '(', ')', '{', '}', 'a', ' ', '`', '2', '.', '\\', '*', '~', '=']
+    n = 3 if tier == 'quick' else 4
+    fixed = ['> f', '<', '2>&1', 'ls | > f', 'echo $(echo >)', 'echo {2147483646..2147483647}', '99999999999999999999 + 1', '2 ^ 64', '2 ^ -1',
+             'echo `', 'echo $(', 'echo ${', 'echo "', "echo '", 'a=', '=a', 'cd a b', 'alias', 'unalias', 'export', 'source', 'fg', 'bg', 'exec', 'exit x; echo no',
+             '(', ')', '((', '))', '{', '}', '$', '$$$', '\\', '&&', '||', ';;', '| |', '& &', 'echo {1..}', 'echo {..1}', 'echo {a..b}', 'echo {1..2..0}',
+             '1 +', '+ 1', '1 / 0', '(1', '1)', '2 ^ 99999', '1.5.5 + 1', 'é' * 50, 'echo ' + 'a' * 5000, 'echo ' + ' '.join(['x'] * 500)]
+    allc = [''.join(t) for k in range(1, n + 1) for t in itertools.product(alpha, repeat=k)]
+    lines = fixed + _sample(allc, 500 if tier == 'quick' else 4000, seed)
+    out = [{'line': l + '\necho alive' if False else l, 'timeout': 5, 'area': 'no-crash:line'} for l in lines]
+    out.append({'line': "X='$X'; echo $X", 'timeout': 3, 'area': 'no-crash:self-referential-value'})
+    # the shell must remain able to run the next command: a script whose lines are odd, followed by a marker
+    for l in [x for x in fixed if not x.startswith(('exit', 'exec'))][:30]:
+        out.append({'script': l + '\necho alive\n', 'expect_stdout_last_line': 'alive', 'timeout': 5, 'area': 'no-crash:next-command-runs'})
+    return out
+
+
+# ------------------------------------------------------------------ C08: descriptors
+def c08(tier, seed):
+    from . import witness as W
+    base = W.run_cicada(line='ls /proc/self/fd')
+    base_set = base.get('stdout', '').split()
+    out = []
+    shell_lines = ['minfd', 'echo $(alias); minfd', 'echo a | cat; minfd', 'X=$(echo a | cat); minfd', 'echo a > f1; alias > f2 2>&1; minfd', 'alias 1>&2 > f3; minfd',
+                   'alias nosuch > f4 2> f5; minfd', 'nosuchcmd-xyz; minfd', 'nosuchcmd-xyz | cat; minfd', 'echo a | nosuchcmd-xyz; minfd', 'cat < /nonexistent-xyz; minfd',
+                   'echo a > /nonexistent-dir/f; minfd', 'cat <<< hs; minfd', 'echo a | cat <<< hs; minfd', 'X=$(nosuchcmd-xyz); minfd', 'X=`echo a`; minfd',
+                   'echo a | cat | cat | cat | cat | cat; minfd', 'sh -c "exit 3"; minfd', 'echo x >> f6; echo y >> f6; minfd', 'alias zz=1; unalias zz; minfd',
+                   'cd /; minfd', 'export A=1; minfd', 'read v <<< x; minfd']
+    for l in shell_lines:
+        out.append({'line': l, 'timeout': 8, 'expect_stdout_last_line': '3', 'area': 'fd:shell-table'})
+    # in a script the script file itself is open in the shell: the reference is what a script consisting of `minfd` alone prints
+    sbase = (W.run_cicada(script='minfd\n').get('stdout', '').strip().split('\n') or ['?'])[-1]
+    out.append({'script': 'sleep 0.2 &\nminfd\n', 'timeout': 8, 'expect_stdout_last_line': sbase, 'area': 'fd:shell-table:background'})
+    out.append({'script': 'echo a | cat\nX=$(echo b)\necho c > f\nminfd\n', 'timeout': 8, 'expect_stdout_last_line': sbase, 'area': 'fd:shell-table:script'})
+    out.append({'script': 'sleep 0.2 &\nls /proc/self/fd\n', 'timeout': 8, 'expect_fdset': base_set, 'fd_where': 'stdout', 'area': 'fd:child-sees-only-0-1-2:background'})
+    out.append({'line': 'ulimit -n 5; echo a | cat <<< b; ulimit -n 64; minfd', 'timeout': 8, 'expect_stdout_last_line': '3', 'area': 'fd:shell-table:failed-start'})
+    for lim in (4, 6, 8, 10):
+        out.append({'line': 'ulimit -n %d; echo a | cat | cat; echo alive' % lim, 'timeout': 8, 'expect_stdout_last_line': 'alive', 'area': 'fd:exhaustion-keeps-shell-alive'})
+    child = [('ls /proc/self/fd', None), ('ls /proc/self/fd 2>&1', None), ('ls /proc/self/fd 1>&2', 'stderr'), ('ls /proc/self/fd > f; cat f', None),
+             ('echo a | ls /proc/self/fd', None), ('ls /proc/self/fd | cat', None), ('echo a | ls /proc/self/fd | cat', None),
+             ('X=$(ls /proc/self/fd); echo $X', None), ('X=$(echo a | ls /proc/self/fd); echo $X', None), ('X=$(ls /proc/self/fd > f); cat f', None),
+             ('echo a | ls /proc/self/fd <<< x', None), ('ls /proc/self/fd <<< x', None), ('ls /proc/self/fd 2> f', None), ('ls /proc/self/fd < /dev/null', None),
+             ('echo `ls /proc/self/fd`', None), ('true; ls /proc/self/fd', None), ('echo a > g; ls /proc/self/fd', None), ('alias > g; ls /proc/self/fd', None),
+             ]
+    for l, where in child:
+        out.append({'line': l, 'timeout': 8, 'expect_fdset': base_set, 'fd_where': where or 'stdout', 'area': 'fd:child-sees-only-0-1-2'})
+    return out
+
+
+CASES = {'C08': c08, 'C01': c01, 'C05': c05, 'C10': c10, 'C11': c11, 'C12': c12, 'C13': c13, 'C17': c17, 'C19': c19, 'C03': c03, 'C04': c04, 'C09': c09, 'C15': c15, 'C02': c02}
